@@ -3,6 +3,7 @@ each exit into obligations.  Also: discharge (z3 in forked workers, cvc5 CLI for
 from __future__ import annotations
 
 import ast
+import re
 import hashlib
 import multiprocessing as mp
 import os
@@ -221,7 +222,9 @@ def verify_function(contract: Contract, specs=None, variant=None) -> FunctionRep
         tgt = contract.opts.get("region_for_target")
         if tgt is not None:
             # statement contract on ONE top-level for-loop, found by its target variable name (robust against edits elsewhere)
-            loopnode = next((s_ for s_ in ast.walk(fn) if isinstance(s_, (ast.For, ast.AsyncFor)) and ast.unparse(s_.target) == tgt), None)
+            matching = sorted((s_ for s_ in ast.walk(fn) if isinstance(s_, (ast.For, ast.AsyncFor)) and ast.unparse(s_.target) == tgt), key=lambda s_: s_.lineno)
+            occ = contract.opts.get("region_occurrence", 0)  # which of several loops with this target (source order)
+            loopnode = matching[occ] if occ < len(matching) else None
             if loopnode is None:
                 raise OutOfSubset(f"region_for_target={tgt}: no such for-loop")
             body = [loopnode]
@@ -286,6 +289,13 @@ def verify_function(contract: Contract, specs=None, variant=None) -> FunctionRep
                 extra = {"result": res}
                 for gname_ in ex.ghost_names():
                     extra[gname_] = s2.ghost.get(gname_, Val("l", sym.EMPTY_LIST))
+                ind_ = contract.opts.get("independent_of")
+                if ind_ is not None and ind_.get("result") and o.sig == "return":
+                    # the RESULT varies with the declared sources only through the declassified functions
+                    rv = ex.as_val(res, s2, o.node) if not isinstance(res, Val) else res
+                    g = ex.ind_setup(ind_, o.node)(rv.e)
+                    rep.obligations.append(Obligation(f"{site}::indep:return@{exit_id}", "post", list(s2.pc), g,
+                                                      {"exit": exit_id, "clause": "result_independent_of_" + "_".join(re.sub(r"\W+", "_", x) for x in ind_["sources"]), "line": ln}))
                 for cl in contract.ensures_:
                     if getattr(cl, "only_exit", None) and not base.startswith(cl.only_exit):
                         continue
